@@ -1,6 +1,7 @@
 import Kio.Proofs.Codec
 import Kio.Model.Current
 import Kio.Generated.All
+import Kio.Generated.Dispatch
 /-!
 # C13 — every entity is self-describing and its description is coherent
 `Schema.wf` (Kio/Model/Typing.lean) is the coherence predicate; `Schema.defaultsOk` adds that
@@ -86,6 +87,13 @@ theorem shipped_defaults :
 /-- **derivable**: from a coherent description alone a reader and a writer can be built -/
 theorem derivable (env : Env) (s : Schema) (hwf : s.wf env = true) :
     s.readerBuildErr env = none ∧ s.writerBuildErr env = none := Kio.wf_buildable env s hwf
+
+/-- the model's dispatch tables are the code's, entry by entry: for each of the 19 × 2 × 2
+    (Kafka type name, flexible, optional) triples the real `get_reader` / `get_writer` return the
+    function object the model names — or raise `NotImplementedError` where the model has no entry
+    (rows observed on /repo by the translator on every run) -/
+theorem dispatch_tables : dispatchOk Generated.readerRows Generated.writerRows = true := by
+  decide +kernel
 
 /-- the class counts the instance theorems range over -/
 theorem class_count : Generated.allClasses.length = Generated.numClasses := by decide +kernel
